@@ -4,16 +4,17 @@ Import ListNotations.
 From VF Require Import C11.Model C11.Proofs.
 Local Open Scope N_scope.
 
-Definition wf_queue (q : list bop) : Prop :=
-  forallb wf_bop q = true /\ has_empty_key (map bop_key q) = false.
+(* [gb]: what the guard on the operations guarantees for every queued batch operation *)
+Definition wf_queue (gb : bop -> bool) (q : list bop) : Prop :=
+  forallb gb q = true /\ has_empty_key (map bop_key q) = false.
 
-Definition batched_rel {P : prov} (l : Z) (R : St P -> store -> Prop) (s : St (batched l P)) (a : store) : Prop :=
-  exists a0, R (fst s) a0 /\ a = apply_batch a0 (snd s) /\ wf_queue (snd s).
+Definition batched_rel {P : prov} (gb : bop -> bool) (l : Z) (R : St P -> store -> Prop) (s : St (batched l P)) (a : store) : Prop :=
+  exists a0, R (fst s) a0 /\ a = apply_batch a0 (snd s) /\ wf_queue gb (snd s).
 
 Lemma apply_batch_snoc a q b : apply_batch a (q ++ [b]) = apply_bop (apply_batch a q) b.
 Proof. unfold apply_batch. rewrite fold_left_app. reflexivity. Qed.
 
-Lemma wf_queue_snoc q b : wf_queue q -> wf_bop b = true -> bop_key b <> 0 -> wf_queue (q ++ [b]).
+Lemma wf_queue_snoc gb q b : wf_queue gb q -> gb b = true -> bop_key b <> 0 -> wf_queue gb (q ++ [b]).
 Proof. intros [H1 H2] Hb Hk. split.
   - rewrite forallb_app, H1. cbn. rewrite Hb. reflexivity.
   - unfold has_empty_key in *. rewrite map_app, existsb_app. apply orb_false_intro; [exact H2|].
@@ -21,14 +22,15 @@ Proof. intros [H1 H2] Hb Hk. split.
 
 Section B.
   Variable G : op -> bool.
+  Variable gb : bop -> bool.
   Variable pers : bool.
   Variable l : Z.
   Variable P : prov.
   Variable R : St P -> store -> Prop.
-  Hypothesis HGb : forall q, forallb wf_bop q = true -> G (Batch q) = true.
+  Hypothesis HGb : forall q, forallb gb q = true -> G (Batch q) = true.
   Hypothesis HP : sim G pers P R.
 
-  Lemma bflush_ok m q a0 : R m a0 -> wf_queue q ->
+  Lemma bflush_ok m q a0 : R m a0 -> wf_queue gb q ->
     R (fst (fst (bflush P (m, q)))) (apply_batch a0 q) /\ snd (fst (bflush P (m, q))) = [] /\ snd (bflush P (m, q)) = ODone.
   Proof.
     intros HR [Hq1 Hq2]. unfold bflush. destruct q as [|x r].
@@ -38,30 +40,30 @@ Section B.
       cbn [spec_step] in H1, H2. rewrite Hq2 in H1, H2. cbn [is_nil orb fst snd] in H1, H2. subst y. cbn. auto.
   Qed.
 
-  Lemma bflush_rel s a : batched_rel l R s a ->
-    batched_rel l R (fst (bflush P s)) a /\ snd (fst (bflush P s)) = [] /\ snd (bflush P s) = ODone /\ R (fst (fst (bflush P s))) a.
+  Lemma bflush_rel s a : batched_rel gb l R s a ->
+    batched_rel gb l R (fst (bflush P s)) a /\ snd (fst (bflush P s)) = [] /\ snd (bflush P s) = ODone /\ R (fst (fst (bflush P s))) a.
   Proof.
     destruct s as [m q]. intros [a0 [HR [-> Hq]]]. cbn [fst snd] in *.
     destruct (bflush_ok m q a0 HR Hq) as [H1 [H2 H3]].
     split; [|auto]. exists (apply_batch a0 q). rewrite H2. split; [assumption|]. split; [reflexivity|]. split; reflexivity.
   Qed.
 
-  Lemma benqueue_rel s a b : batched_rel l R s a -> wf_bop b = true -> bop_key b <> 0 ->
-    batched_rel l R (fst (benqueue l P s b)) (apply_bop a b) /\ snd (benqueue l P s b) = ODone.
+  Lemma benqueue_rel s a b : batched_rel gb l R s a -> gb b = true -> bop_key b <> 0 ->
+    batched_rel gb l R (fst (benqueue l P s b)) (apply_bop a b) /\ snd (benqueue l P s b) = ODone.
   Proof.
     destruct s as [m q]. intros [a0 [HR [-> Hq]]] Hb Hk. cbn [fst snd] in *.
-    pose proof (wf_queue_snoc q b Hq Hb Hk) as Hq1.
+    pose proof (wf_queue_snoc gb q b Hq Hb Hk) as Hq1.
     unfold benqueue. destruct (Z.leb l (Z.of_nat (length (q ++ [b])))).
-    - assert (Hrel : batched_rel l R (m, q ++ [b]) (apply_bop (apply_batch a0 q) b)).
+    - assert (Hrel : batched_rel gb l R (m, q ++ [b]) (apply_bop (apply_batch a0 q) b)).
       { exists a0. cbn [fst snd]. split; [assumption|]. split; [symmetry; apply apply_batch_snoc|assumption]. }
       destruct (bflush_rel _ _ Hrel) as [H1 [_ [H3 _]]]. auto.
     - cbn [fst snd]. split; [|reflexivity]. exists a0. cbn [fst snd]. split; [assumption|].
       split; [symmetry; apply apply_batch_snoc|assumption].
   Qed.
 
-  Lemma benqueue_all_rel bs : forall s a, batched_rel l R s a -> forallb wf_bop bs = true ->
+  Lemma benqueue_all_rel bs : forall s a, batched_rel gb l R s a -> forallb gb bs = true ->
     has_empty_key (map bop_key bs) = false ->
-    batched_rel l R (fst (benqueue_all l P s bs)) (apply_batch a bs) /\ snd (benqueue_all l P s bs) = ODone.
+    batched_rel gb l R (fst (benqueue_all l P s bs)) (apply_batch a bs) /\ snd (benqueue_all l P s bs) = ODone.
   Proof.
     induction bs as [|b r IH]; intros s a Hrel Hw Hk.
     - cbn. auto.
@@ -73,8 +75,8 @@ Section B.
       apply (IH s1 (apply_bop a b) H1 Hr Hk2).
   Qed.
 
-  Lemma bread_rel s a o : G o = true -> batched_rel l R s a ->
-    batched_rel l R (fst (bread P s o)) (fst (spec_step pers a o)) /\
+  Lemma bread_rel s a o : G o = true -> batched_rel gb l R s a ->
+    batched_rel gb l R (fst (bread P s o)) (fst (spec_step pers a o)) /\
     snd (bread P s o) = match snd (spec_step pers a o) with ODone => OErr | x => x end.
   Proof.
     intros Ho Hrel. destruct (bflush_rel s a Hrel) as [H1 [H2 [H3 H4]]].
@@ -84,17 +86,18 @@ Section B.
     exists (fst (spec_step pers a o)). cbn [fst snd]. rewrite H2. split; [assumption|]. split; [reflexivity|split; reflexivity].
   Qed.
 
-  Hypothesis HGwf : forall o, G o = true -> wf_op o = true.
+  Hypothesis Hgput : forall k v t, G (Put k v t) = true -> valid_put k v t = true -> gb (k, v, t) = true.
+  Hypothesis Hgdel : forall k, gb (k, 0, []) = true.
+  Hypothesis Hgbatch : forall b, G (Batch b) = true -> forallb gb b = true.
   Hypothesis HGr : G Reopen = true.
   Hypothesis HGf : G Flush = true.
 
-  Lemma batched_sim : sim G pers (batched l P) (batched_rel l R).
+  Lemma batched_sim : sim G pers (batched l P) (batched_rel gb l R).
   Proof.
-    intros s a o Ho Hrel. pose proof (HGwf o Ho) as Hwf.
+    intros s a o Ho Hrel.
     destruct o as [k v t|k|k|ks|q|k|b| |]; cbn [step batched batched_step].
     - (* Put *) cbn [spec_step]. destruct (valid_put k v t) eqn:Ev; [|cbn; auto].
-      assert (Hb : wf_bop (k, v, t) = true).
-      { destruct (valid_put_wf k v t Ev) as [_ Ht]. unfold wf_bop. cbn in *. rewrite Ht. reflexivity. }
+      pose proof (Hgput k v t Ho Ev) as Hb.
       assert (Hk : bop_key (k, v, t) <> 0).
       { cbn. unfold valid_put in Ev. intros ->. cbn in Ev. discriminate. }
       assert (Hv : (v =? 0) = false).
@@ -110,9 +113,9 @@ Section B.
     - (* Query *) destruct (bread_rel s a (Query q) Ho Hrel) as [H1 H2]. split; [assumption|]. etransitivity; [exact H2|].
       cbn. destruct (is_nil q); reflexivity.
     - (* Delete *) cbn [spec_step]. destruct (N.eqb_spec k 0) as [->|Hk]; [cbn; auto|].
-      destruct (benqueue_rel s a (k, 0, []) Hrel eq_refl Hk) as [H1 H2]. cbn [fst snd]. auto.
+      destruct (benqueue_rel s a (k, 0, []) Hrel (Hgdel k) Hk) as [H1 H2]. cbn [fst snd]. auto.
     - (* Batch *) cbn [spec_step]. destruct (is_nil b || has_empty_key (map bop_key b)) eqn:E; [cbn; auto|].
-      apply orb_false_elim in E as [_ E2]. cbn [fst snd]. apply benqueue_all_rel; assumption.
+      apply orb_false_elim in E as [_ E2]. cbn [fst snd]. apply benqueue_all_rel; [assumption|apply Hgbatch; exact Ho|assumption].
     - (* Flush *) destruct (bflush_rel s a Hrel) as [H1 [H2 [H3 H4]]].
       destruct (bflush P s) as [s1 y]. cbn [fst snd] in *. subst y. cbn [is_done].
       pose proof (HP (fst s1) a Flush Ho H4) as [H5 H6].
@@ -129,5 +132,5 @@ Section B.
 End B.
 
 (* new (empty-queue) wrapper over a flushed store *)
-Lemma batched_rel_fresh (P : prov) l (R : St P -> store -> Prop) m a : R m a -> batched_rel l R (m, []) a.
+Lemma batched_rel_fresh (P : prov) gb l (R : St P -> store -> Prop) m a : R m a -> batched_rel gb l R (m, []) a.
 Proof. intros H. exists a. cbn. split; [assumption|]. split; [reflexivity|split; reflexivity]. Qed.
